@@ -244,6 +244,87 @@ def loadback_case(args):
         shutil.rmtree(tmp, ignore_errors=True)
 
 
+def loadback128_case(args):
+    """bin2tap on a 128K image (--7ffd, --clear, --begin, optional --banks / --loader / --start) -> tap2sna -c machine=128:
+    every requested RAM bank holds its bytes, the main block is at its addresses (bar the bank loader's own bytes),
+    PC = START, port 0x7FFD holds the requested value."""
+    seed, k = args
+    from skoolkit import bin2tap, tap2sna
+    from skoolkit.snapshot import Snapshot
+    rnd = random.Random('%s/128/%s' % (seed, k))
+    tmp = tempfile.mkdtemp(prefix='c12b_')
+    try:
+        image = bytes(rnd.randrange(1, 256) for _ in range(0x20000))
+        binf = os.path.join(tmp, 'x.bin')
+        with open(binf, 'wb') as f:
+            f.write(image)
+        clear = rnd.randrange(24200, 26000)
+        begin = clear + 1 + rnd.choice((0, 0, 100))
+        start = rnd.choice((32768, begin + 200, 40000))
+        o7 = rnd.choice((0x10, 0x11, 0x13, 0x14, 0x16, 0x17, 0x00, 0x07))
+        ext = rnd.choice(('tap', 'pzx'))
+        args = ['--7ffd', str(o7), '-c', str(clear), '-b', str(begin), '-s', str(start)]
+        all_banks = (0, 1, 3, 4, 6, 7)
+        form = k % 4
+        if form == 0:
+            banks = all_banks           # --banks not given: the documented default
+        elif form == 1:
+            banks = tuple(b for b in all_banks if rnd.random() < 0.5) or (0,)
+            args += ['--banks', ','.join(str(b) for b in banks)]
+        elif form == 2:
+            banks = (0,) + tuple(b for b in all_banks[1:] if rnd.random() < 0.4)      # bank 0 named explicitly
+            args += ['--banks', ','.join(str(b) for b in sorted(banks, reverse=rnd.random() < 0.5))]
+        else:
+            banks = all_banks
+            args += ['--banks', '0,1,3,4,6,7']
+        loader = clear + 1
+        if rnd.random() < 0.3:
+            loader = rnd.randrange(begin, 30000)
+            args += ['--loader', str(loader)]
+        if loader - 4 <= start < loader + 64:
+            # START inside the bank loader's own bytes is not a program to load back: the loader replaces the image there
+            start = 32768
+            args[args.index('-s') + 1] = str(start)
+        tapef = os.path.join(tmp, 'x.' + ext)
+        z80f = os.path.join(tmp, 'x.z80')
+        desc = ' '.join(args) + ' (%s)' % ext
+        o1 = _run_main(bin2tap.main, args + [binf, tapef])
+        if 'EXC' in o1 or 'EXIT' in o1:
+            return ('bin2tap', desc, o1[-200:])
+        o2 = _run_main(tap2sna.main, ['-c', 'machine=128', '--start', str(start)] + (['-c', 'python=1'] if k % 5 == 4 else []) + [tapef, z80f])
+        if not os.path.exists(z80f) or 'EXC' in o2 or 'EXIT' in o2:
+            return ('tap2sna', desc, o2[-200:].replace('\n', '|'))
+        try:
+            s = Snapshot.get(z80f)
+            ram = s.ram(-1)
+        except Exception as ex:
+            return ('loadback128', desc, ['the snapshot written by tap2sna cannot be read back: %r' % (ex,)])
+        why = []
+        if len(ram) != 0x20000:
+            return ('loadback128', desc, ['not a 128K snapshot (%d bytes of RAM)' % len(ram)])
+        if s.pc != start:
+            why.append('pc %d != %d' % (s.pc, start))
+        if s.out7ffd != o7:
+            why.append('port 0x7FFD holds %d, requested %d' % (s.out7ffd, o7))
+        for addr in range(begin, 49152):
+            if loader <= addr < loader + 64:
+                continue
+            b, off = (5, addr - 0x4000) if addr < 0x8000 else (2, addr - 0x8000)
+            if ram[b * 0x4000 + off] != image[b * 0x4000 + off]:
+                why.append('main block differs at %d' % addr)
+                break
+        for b in banks:
+            if bytes(ram[b * 0x4000:(b + 1) * 0x4000]) != image[b * 0x4000:(b + 1) * 0x4000]:
+                first = next(i for i in range(0x4000) if ram[b * 0x4000 + i] != image[b * 0x4000 + i])
+                why.append('RAM bank %d was requested but does not hold its bytes (first difference at offset %d)' % (b, first))
+                break
+        if why:
+            return ('loadback128', desc, why)
+        return None
+    finally:
+        shutil.rmtree(tmp, ignore_errors=True)
+
+
 def run(tier):
     rep = common.Report('C12', tier, 'other', './check C12 --tier %s' % tier)
     rep.trust('pyvc, z3 for the kernels; CPython + skoolkit\'s own simulator for the bounded load-back')
@@ -268,6 +349,8 @@ def run(tier):
         res = p.map(loadback_case, [(common.seed(), k) for k in range(n)], chunksize=1)
         # E: the writer bin2tap picks and the reader tap2sna picks agree for every spelling of the extension
         res_e = p.map(loadback_case, [(common.seed(), 1000 + i, e) for i, e in enumerate(exts)], chunksize=1)
+        n128 = 48 if quick else 1200
+        res128 = p.map(loadback128_case, [(common.seed(), k) for k in range(n128)], chunksize=2)
     bad_e = [r for r in res_e if r]
     rep.add_bulk(len(exts) - len(bad_e), 'exhaustive', 0, 'skoolkit.bin2tap.run / skoolkit.tap2sna (tape format chosen from the file name)', n=len(exts))
     rep.exhaustive.append({'domain': 'upper/lower-case spellings of the output extensions .tap and .pzx (format written == format read)', 'size': len(exts), 'visited': len(exts), 'complete': True})
@@ -277,6 +360,10 @@ def run(tier):
     bad = [r for r in res if r]
     rep.bounded.append({'function': 'skoolkit.bin2tap.main -> skoolkit.tap2sna.main', 'contract': 'loaded snapshot: memory == binary at ORG (bar 14 stack bytes), PC == START, SP == STACK',
                         'bound': '%d generated configurations (ORG/START/STACK incl. every partial stack overlap, CLEAR, screen, tap/pzx)' % n, 'evaluations': n})
+    bad += [r for r in res128 if r]
+    rep.bounded.append({'function': 'skoolkit.bin2tap.main (128K: --7ffd/--clear/--begin/--banks/--loader) -> skoolkit.tap2sna.main -c machine=128',
+                        'contract': 'every requested RAM bank holds its bytes, main block at its addresses (bar the bank loader), PC == START, port 0x7FFD == requested value',
+                        'bound': '%d generated 128K configurations (default banks, subsets, bank 0 named, the default list spelled out; tap/pzx; python=1 for one in five)' % n128, 'evaluations': n128})
     seen = set()
     for b in bad:
         key = 'C12/%s' % b[0]
